@@ -31,8 +31,10 @@ def toOp (j : J) : Except String (Op DSpec) := do
   match ← j.getStr "op" with
   | "offer" =>
     let spec := j.getD "spec"
-    pure (.offer (← toKey j) (optStr j "version") ⟨← getNat spec "id", ← spec.getBool "fail"⟩ (optNat j "sys"))
+    pure (.offer (← toKey j) (optStr j "version") ⟨← getNat spec "id", ← spec.getBool "fail"⟩ (optNat j "sys")
+      ((j.getD "cycle").bool?.getD false))
   | "delete" => pure (.delete (← toKey j) (optStr j "version"))
+  | "deleteMeta" => pure (.deleteMeta (← toKey j) (optStr j "version"))
   | "lookup" => pure (.lookup (← toKey j))
   | "systemData" => pure (.systemData (← toKey j))
   | o => throw s!"bad op {o}"
@@ -49,6 +51,7 @@ def ofEntry (e : Entry DSpec (Nat × String × Nat)) : J :=
 def ofOut : Out DSpec (Nat × String × Nat) → J
   | .typeError => .obj [("k", .str "typeError")]
   | .returned r n p => .obj [("k", .str "returned"), ("resource", ofResult r), ("serial", .num n), ("prepared", .bool p)]
+  | .raisedCycle r n => .obj [("k", .str "raisedCycle"), ("resource", ofResult r), ("serial", .num n)]
   | .unit => .obj [("k", .str "unit")]
   | .found none => .obj [("k", .str "found"), ("v", .null)]
   | .found (some (r, n)) => .obj [("k", .str "found"), ("v", .obj [("resource", ofResult r), ("serial", .num n)])]
